@@ -613,7 +613,88 @@ func c12Getters(x *engine.X) {
 
 // ---- SetAsyncReadBuffer -----------------------------------------------------------------------------
 
+// c12BufferChain: n datagrams are queued, then a chain of reads — every completion starts the next read with
+// the next buffer of a ring of k — consumes them. The first 32 complete inline, the 33rd is issued at the
+// dispatch limit and parked without having tried the socket, later ones alternate. Every datagram must land in
+// the buffer handed to the read that reports it, and in no other.
+func c12BufferChain(x *engine.X, n, k int) {
+	ioc, _ := sonic.NewIO()
+	x.Defer(func() { ioc.Close() })
+	p, err := newOwnPeer(ioc, "127.0.0.1")
+	if err != nil {
+		engine.HarnessError("NewUDPPeer: %v", err)
+	}
+	x.Defer(func() { p.Close() })
+	raw, _, _ := kern.UDPSocket()
+	x.Defer(func() { syscall.Close(raw) })
+	ring := make([][]byte, k)
+	for i := range ring {
+		ring[i] = make([]byte, 32)
+	}
+	var sent [][]byte
+	for i := 0; i < n; i++ {
+		d := dgram(100+i, 9+i%5)
+		sent = append(sent, d)
+		sendtoRetry(raw, d, &syscall.SockaddrInet4{Addr: [4]byte{127, 0, 0, 1}, Port: p.LocalAddr().Port})
+	}
+	kern.AwaitReadReady(p.NextLayer().RawFd(), settleGuard)
+	done := 0
+	var issue func(i int)
+	issue = func(i int) {
+		buf := ring[i%k]
+		snap := make([][]byte, k)
+		for j := range ring {
+			snap[j] = append([]byte{}, ring[j]...)
+		}
+		calls := 0
+		p.AsyncRead(buf, func(err error, m int, _ netip.AddrPort) {
+			calls++
+			if calls > 1 {
+				x.Fail("mcast.AsyncRead/callback-twice", "read %d completed %d times", i, calls)
+			}
+			if err != nil || m != len(sent[i]) {
+				x.Fail("mcast.AsyncRead/chain-result", "read %d of a chain over %d queued datagrams completed with (%v,%d), datagram %d has %d bytes", i, n, err, m, i, len(sent[i]))
+			}
+			if string(buf[:m]) != string(sent[i]) {
+				x.Fail("mcast.AsyncRead/not-the-designated-buffer", "read %d (ring of %d buffers, %d datagrams queued): the buffer handed to this read holds %x, datagram %d is %x", i, k, n, buf[:m], i, sent[i])
+			}
+			for j := range ring {
+				if j != i%k && string(ring[j]) != string(snap[j]) {
+					x.Fail("mcast.AsyncRead/other-buffer-written", "read %d changed ring buffer %d, which was not handed to it", i, j)
+				}
+			}
+			done++
+			if i+1 < n {
+				issue(i + 1)
+			}
+		})
+	}
+	issue(0)
+	for i := 0; i < n+4 && done < n; i++ {
+		ioc.PollOne()
+	}
+	x.Nontrivial()
+	if done != n {
+		x.Fail("mcast.AsyncRead/chain-incomplete", "%d of %d queued datagrams were reported", done, n)
+	}
+	if ioc.Dispatched != 0 {
+		x.Fail("mcast.AsyncRead/dispatched-not-zero", "IO.Dispatched=%d after the chain unwound", ioc.Dispatched)
+	}
+	x.Outcome(fmt.Sprintf("chain%d/%d", n, k))
+}
+
 func c12Buffer(x *engine.X) {
+	switch x.Pick(4, "buffer scenario") {
+	case 1:
+		c12BufferChain(x, 34, 2)
+		return
+	case 2:
+		c12BufferChain(x, 40, 4)
+		return
+	case 3:
+		c12BufferChain(x, 70, 3)
+		return
+	}
 	ioc, _ := sonic.NewIO()
 	x.Defer(func() { ioc.Close() })
 	p, err := newOwnPeer(ioc, "127.0.0.1")
@@ -695,7 +776,7 @@ func C12(tier string) *engine.Report {
 	tot.Add(d.Run(), rep)
 	_, _, ok := mcastInterface()
 	tot.Fill(rep, "boundary: every datagram size 1..1472 and {1473,4096,9000,65507} x packet conn / multicast peer x read (buffer shorter/exact/longer; burst, second sender, early start, forced-deferred as deviations) / write; "+
-		"member: all sequences up to depth 3/4 of 14 membership calls over 2 groups x 2 sources with a probe per group and a fence after every call; getter: all sequences up to depth 3 of 10 setters x 5 bind forms against getsockopt/getsockname; buffer: SetAsyncReadBuffer chains; "+
+		"member: all sequences up to depth 3/4 of 14 membership calls over 2 groups x 2 sources with a probe per group and a fence after every call; getter: all sequences up to depth 3 of 10 setters x 5 bind forms against getsockopt/getsockname; buffer: SetAsyncReadBuffer chains, and chains of 34/40/70 reads over queued datagrams with a ring of 2/4/3 buffers (crossing the dispatch limit); "+
 		"non-trivial = a datagram was transferred or a call made", d.MaxDeviations)
 	rep.Coverage["multicast_interface_available"] = ok
 	if !ok {
